@@ -158,5 +158,16 @@ CHECKS = {
           "Per-producer order and exclusivity of the consume function at run time are not decided.",
   "note": "Trusted: clang 14 CFG; Executor::submit semantics (0 = accepted).",
   "technique": "static analysis: reaching-definitions + must-pass-through, edge-guard and memory-order rules over CFG facts"},
+ "C15": {
+  "text": "Decides on every ConcurrentTransientTopic<T,S> instantiation: in the per-block publish step callback -> release fence -> status "
+          "stores over every slot [begin,end) -> seq_cst fence -> waiter re-load/wake over every slot, on all paths; concurrent publishers "
+          "claim indices by one fetch_add(num) and publish exactly [claimed, claimed+num); close stores CLOSED at the next event index, "
+          "seq_cst fence, waiter check; a consumer counts only slots seen PUBLISHED, stops at CLOSED, sleeps otherwise, advances by the "
+          "count and an acquire fence separates the relaxed status reads from handing out items; a sleeper waits only after setting or "
+          "seeing the waiter bit, installs observed+2^16; the waker's threshold is 2^16 and wake_all is unavoidable when a sleeper is "
+          "seen; clear resets every slot word and the index. The consumer-registers-while-publisher-wakes window is never staged by the "
+          "tests and a missed wake-up is a hang. Order across blocks and consumer termination are not decided.",
+  "note": "Trusted: clang 14 CFG; kernel futex; ConcurrentVector snapshot/for_each block iteration (C04).",
+  "technique": "static analysis: fence-between / ordering / edge-guard / range-agreement rules over inlined CFG facts"},
 }
 NOT_APPLICABLE = {("C%02d" % i): PENDING for i in range(1, 21) if ("C%02d" % i) not in CHECKS}
